@@ -169,6 +169,47 @@ Example C16_log_global_window_visible :
   In (1%nat, EvLogOpts 3) (snd (run w_log_fine (init_log 3 (fun _ => 0) w_log_progs_temp))).
 Proof. vm_compute. repeat split; auto. Qed.
 
+(* reference count of a compiled type of the SHARED schema, touched from PRIVATE data trees (values with compiled
+   predicate paths take / give back a reference on the key's type when stored, duplicated, freed): when every thread
+   uses the atomic operations only (LY_ATOMIC_INC_BARRIER / LY_ATOMIC_DEC_BARRIER - all compiled API programs do), then
+   in every schedule, cut anywhere, the counter is its initial value plus the sum of the operations that took effect: no
+   update is ever lost, so after every duplicate was freed the counter is back to its initial value. *)
+Theorem C16_type_refcount_atomic_no_lost_update : forall c progs sched,
+  (forall q, In q progs -> plain_ref_free q = true) ->
+  s_tref (fst (run sched (init_ref c progs))) = (c + ref_sum (snd (run sched (init_ref c progs))))%Z.
+Proof. exact ref_atomic_no_lost_update. Qed.
+Print Assumptions C16_type_refcount_atomic_no_lost_update.
+
+Theorem C16_api_programs_plain_ref_free : forall ops, plain_ref_free (compile ops) = true.
+Proof.
+  induction ops as [|o ops IH]; [reflexivity|]. unfold compile, plain_ref_free in *. cbn [map concat].
+  rewrite existsb_app. destruct o; cbn; exact IH.
+Qed.
+Print Assumptions C16_api_programs_plain_ref_free.
+
+(* regression (a seeded change of ly_path_dup_predicates, path.c:977, replaced the atomic increment by a plain
+   ++refcount): type_refcount_plain_increment_safe - a plain increment is as good as the atomic one - is refuted: two
+   duplicating threads interleaved load / load / store / store leave the counter at 2 instead of 3 (a later free releases
+   the type while the schema still uses it), and a plain increment around another thread's atomic decrement (load, dec,
+   store) leaves 2 instead of 1 (the type is leaked at ly_ctx_destroy). With the atomic operation the first schedule
+   gives 3. The oracle conc-serial sees both as a changed lysc_type.refcount of the shared schema (refs=...). *)
+Definition type_refcount_plain_increment_safe : Prop :=
+  forall sched, all_done (fst (run sched (init_ref 1 w_ref_progs))) = true ->
+                s_tref (fst (run sched (init_ref 1 w_ref_progs))) = 3%Z.
+
+Theorem type_refcount_plain_increment_refuted :
+  exists sched, all_done (fst (run sched (init_ref 1 w_ref_progs))) = true /\
+                s_tref (fst (run sched (init_ref 1 w_ref_progs))) = 2%Z.
+Proof. exists w_ref_fine. vm_compute. split; reflexivity. Qed.
+Print Assumptions type_refcount_plain_increment_refuted.
+
+Example C16_type_refcount_witnesses :
+  all_done (fst (run w_ref2_fine (init_ref 1 w_ref2_progs))) = true /\
+  s_tref (fst (run w_ref2_fine (init_ref 1 w_ref2_progs))) = 2%Z /\
+  all_done (fst (run w_ref_fine (init_ref 1 w_ref_progs_atomic))) = true /\
+  s_tref (fst (run w_ref_fine (init_ref 1 w_ref_progs_atomic))) = 3%Z.
+Proof. vm_compute. repeat split; reflexivity. Qed.
+
 (* the hypotheses of the positive theorems are satisfiable by non-trivial values: three threads inserting and removing
    overlapping strings under a schedule that interleaves their critical sections; all finish, every call succeeded,
    all references were given back and the dictionary is the initial one *)
